@@ -9,5 +9,5 @@ def run(tier):
         "C05", tier, LEVEL, models=(),
         need=('empty_final_cluster','scaled_data'),
         rule="""every relabel event (likelihood table) and return event (per-point values) of every completed run: O7 observation required by the specification at Score and Return""",
-        extra=lambda rep, trs, tier: _metrics.ll_family(rep, tier, {"C05"}),
+        extra=lambda rep, trs, tier: (_metrics.ll_family(rep, tier, {"C05"}), _metrics.big_family(rep, tier, {"C05"})),
         nontrivial=lambda t: (t['hdr']['id'],))
